@@ -183,7 +183,7 @@ func MinimiseN(t *testing.T, p *Profile, rr *RunResult, budgetSec, maxCand int) 
 	// simplify the steps that are left: drop faults, drop single edits
 	for changed := true; changed && !stop(); {
 		changed = false
-		for i := range best.Trace {
+		for i := 0; i < len(best.Trace); i++ { // best shrinks while we go (an accepted candidate ends at its violating step)
 			st := best.Trace[i]
 			if st.Net != "" || st.DB != nil {
 				cand := append([]Step(nil), best.Trace...)
